@@ -41,7 +41,7 @@ META = {
         "asyncio semantics as implemented by BaseEventLoop (only clock/selector replaced)",
         "the ack call instant is the instant the broker-supplied callable is invoked",
     ],
-    "required_counters": ["scenarios", "terminal_states", "acks_checked"],
+    "required_counters": ["wiring_cases", "scenarios", "terminal_states", "acks_checked"],
     "bounds": {
         "quick": {"n": "1 (all), 2 (all pairs over 5 outcomes)", "L1": "n=1"},
         "thorough": {"n": "1, 2 (all pairs over 9 outcomes)", "L1": "n=1 and n=2 over 4 outcomes", "L2": "n=1"},
@@ -139,6 +139,10 @@ def scenarios(tier: str) -> List[Dict[str, Any]]:
 
 
 def shards(tier: str, seed: int) -> List[Any]:
+    return _shards(tier, seed) + [[{"wiring": "C02"}]]
+
+
+def _shards(tier: str, seed: int) -> List[Any]:
     scs = scenarios(tier)
     if tier == "thorough":
         mark_stateless(scs, 6, 12)
@@ -154,6 +158,12 @@ def _per(sc: Dict[str, Any], res: Any, acc: Acc) -> None:
 
 
 def run_shard(shard: List[Dict[str, Any]]) -> Dict[str, Any]:
+    if shard and shard[0].get("wiring"):
+        from mc.cli_wiring import check_worker_wiring
+
+        acc = Acc()
+        check_worker_wiring("C02", acc)
+        return acc.as_dict()
     return run_scenarios("C02", shard, C02World, per_scenario=_per).as_dict()
 
 
